@@ -420,3 +420,10 @@ func flatHist(h map[uint64]map[types.Address]*c11amt) []string {
 	sortStrings(out)
 	return out
 }
+
+// TestC11Reorg: "the credited amounts are a function of the chain alone": a node that reorganised across the end
+// of an epoch executes (and verifies) the reward updates of that epoch exactly like a node that only saw the
+// adopted branch — it accepts the honest momentums carrying them and ends with the same deposits and histories.
+func TestC11Reorg(t *testing.T) {
+	pbt.Check(t, "C11", func(c *pbt.C) { reorgScenarioOpts(c, "C11", fullCompare, true) })
+}
